@@ -265,6 +265,9 @@ class RedirectStream(Stream):
         # multi-valued query arguments on every kind of redirect (seeded change C12-d2)
         {"cfg": mk_cfg(), "rules": [mk_rule(toks_of("/bar/"), "bar"), mk_rule(toks_of("/a/b"), "ab"), mk_rule(toks_of("/all/"), "all", defaults={"page": ["i", 1]}), mk_rule(toks_of("/all/page/<int:page>"), "all"), mk_rule(toks_of("/old/"), "bar", alias=True)], "adapter": mk_adapter(scheme="https"), "qa": ["m", [["tag", ["a", "b"]], ["q", ["1"]]]], "probes": [["/bar", "GET"], ["/a//b", "GET"], ["/all/page/1", "GET"], ["/old/", "GET"]]},
         {"cfg": mk_cfg(), "rules": [mk_rule(toks_of("/bar/"), "bar"), mk_rule(toks_of("/a/b"), "ab"), mk_rule(toks_of("/all/"), "all", defaults={"page": ["i", 1]}), mk_rule(toks_of("/all/page/<int:page>"), "all"), mk_rule(toks_of("/old/"), "bar", alias=True)], "adapter": mk_adapter(), "qa": ["p", [["tag", "a"], ["tag", "b"]]], "probes": [["/bar", "GET"], ["/a//b", "GET"], ["/all/page/1", "GET"], ["/old/", "GET"]]},
+        # a slash redirect whose path legitimately contains '//' (seeded change C12-b2: the target must keep it)
+        {"cfg": mk_cfg(), "rules": [mk_rule(toks_of("/with/<path:p>/"), "w")], "adapter": mk_adapter(), "qa": None, "probes": [["/with/x//y", "GET"], ["/with/http://example.com", "GET"], ["/with/x/y", "GET"]]},
+        {"cfg": mk_cfg(), "rules": [mk_rule(["/", ["L", "no"], "/", "/", ["L", "merge"], "/"], "n", merge=False)], "adapter": mk_adapter(), "qa": None, "probes": [["/no//merge", "GET"], ["/no//merge/", "GET"]]},
         # hostile first segments
         {"cfg": mk_cfg(), "rules": [mk_rule(toks_of("/<path:p>/"), "p"), mk_rule(toks_of("/a/"), "a")], "adapter": mk_adapter(), "qa": None, "probes": [[p, "GET"] for p in HOSTILE]},
         {"cfg": mk_cfg(), "rules": [mk_rule(toks_of("/<path:p>/"), "p")], "adapter": mk_adapter(script="/app/", scheme="https", sub="api", qa=["t", "q=1"]), "qa": None, "probes": [[p, "GET"] for p in HOSTILE[:8]]},
